@@ -65,6 +65,15 @@ def assert_sites(fn):
             child = a
 
 
+# library algorithms that modify the elements of the range(s) given by their first N iterator arguments
+MUTATING_ALGORITHMS = {"std::sort": 2, "std::stable_sort": 2, "std::partial_sort": 3, "std::nth_element": 3, "std::reverse": 2,
+                       "std::rotate": 3, "std::fill": 2, "std::fill_n": 1, "std::generate": 2, "std::iota": 2, "std::remove": 2,
+                       "std::remove_if": 2, "std::unique": 2, "std::replace": 2, "std::replace_if": 2, "std::partition": 2,
+                       "std::stable_partition": 2, "std::shuffle": 2, "std::random_shuffle": 2, "std::swap_ranges": 3,
+                       "std::next_permutation": 2, "std::prev_permutation": 2, "std::make_heap": 2, "std::push_heap": 2,
+                       "std::pop_heap": 2, "std::sort_heap": 2, "std::inplace_merge": 3}
+
+
 class Purity:
     def __init__(self, prog):
         self.prog = prog
@@ -110,6 +119,15 @@ class Purity:
         args = call_args(call)
         if call.get("k") == "CXXOperatorCallExpr" and info.get("method"):
             args = args[1:]
+        if q in MUTATING_ALGORITHMS:
+            # these write through the iterators they are given: pure only if every range belongs to a local object
+            for a in args[:MUTATING_ALGORITHMS[q]]:
+                inner = strip_all(a)
+                rcv = call_receiver_of(inner) if inner is not None and is_call(inner) else None
+                root_ok = rcv is not None and loc is not None and self._local_object(caller, rcv, depth, loc, ptr_like)
+                if not root_ok:
+                    return False, "%s writes through the range it is given (%s)" % (q, show(a)[:30])
+            return True, ""
         for i, p in enumerate(params):
             p = notpl(p)
             if ("*" in p or "&" in p) and not _points_to_const(p):
